@@ -71,6 +71,20 @@ claim("C08", "exploration",
       "Open findings (Raptor) are excluded by signature and pinned.",
       "DESIGN.md section 4 C08")
 
+claim("C09", "exploration",
+      "proptest-generated packet histories x injected writer faults; typestate automaton per writer instance evaluated online by a monitoring ObjectWriter (invariant over the callback history)",
+      "Histories (clean, lossy, duplicated, reordered, cut at any point followed by dropping the receiver) over small sessions of all schemes incl. cenc and empty objects, x open()/n-th write() failures, "
+      "builder answers ObjectAlreadyReceived/Abort, and foreign FDT instances without FEC-OTI attributes (writer created from inside push). Per writer: open once and first, then writes whose successful "
+      "concatenation is a prefix of the object, at most one terminal call, nothing after; complete only with exactly the object's bytes and no failed write; every opened writer terminated once the receiver is "
+      "dropped. Every other receiver-side check evaluates the same automaton on its own histories.",
+      "DESIGN.md section 4 C09")
+claim("C16", "fault_enumeration",
+      "exhaustive enumeration of every join offset within the first carousel cycle of generated carousel sessions; oracle = every carouselled object completes byte-exact within two further cycles",
+      "Carousel sessions (1-3 objects incl. empty, one-symbol and multi-block; all schemes; in-band or FDT-only OTI/CENC; delay, interval and zero-delay carousel; both publish modes) are recorded for 12 "
+      "cycles; for each session EVERY packet boundary of the first full cycle is used as join point (exhaustive per session) and the suffix up to the end of the second further full cycle of all objects "
+      "and of the FDT is delivered with the original instants. Each object must complete at least once, every completed copy byte-exact with the right location/length.",
+      "DESIGN.md section 4 C16")
+
 ALL = ["C%02d" % i for i in range(1, 21)]
 
 def main():
